@@ -683,8 +683,91 @@ func (h *H) apply1(line string) (string, bool) {
 		return fmt.Sprintf("setused=%v", ok), true
 	case "SNAP":
 		return h.snap(), true
+	case "EXPIRY":
+		// EXPIRY <ms> <dir|mem> <cancel|complete>
+		if len(a) == 3 {
+			ms, _ := strconv.Atoi(a[0])
+			h.expiryProbe(time.Duration(ms)*time.Millisecond, a[1], a[2])
+		}
+		return "ok", true
 	}
 	return "bad-op", true
+}
+
+// expiryProbe (C08, "ceases to exist after expiry ... no temporary file remains") with the real timer on a server of
+// its own: a first session is cancelled or completed, which empties the session cache of the repository; a second one
+// receives a chunk and is abandoned.  Lateness is not judged: the session must be gone - with its temporary file - after 4x or else 40x the grace.
+func (h *H) expiryProbe(grace time.Duration, storeKind, how string) {
+	conf := config.Config{
+		Storage: config.ConfigStorage{StoreType: config.StoreMem, GC: config.ConfigGC{Frequency: -1, GracePeriod: grace}},
+	}
+	root := ""
+	if storeKind == "dir" {
+		root = filepath.Join(h.workDir, fmt.Sprintf("expiry%d", h.lineNo))
+		_ = os.MkdirAll(root, 0o755)
+		defer os.RemoveAll(root)
+		conf.Storage.StoreType, conf.Storage.RootDir = config.StoreDir, root
+	}
+	srv := olareg.New(conf)
+	defer srv.Close()
+	do := func(method, path string, body []byte, hdr map[string]string) *httptest.ResponseRecorder {
+		var rdr io.Reader
+		if body != nil {
+			rdr = bytes.NewReader(body)
+		}
+		req := httptest.NewRequest(method, path, rdr)
+		for k, v := range hdr {
+			req.Header.Set(k, v)
+		}
+		w := httptest.NewRecorder()
+		srv.ServeHTTP(w, req)
+		return w
+	}
+	r1 := do("POST", "/v2/r1/blobs/uploads/", nil, nil)
+	loc1 := r1.Header().Get("Location")
+	if r1.Code != 202 || loc1 == "" {
+		return
+	}
+	if how == "complete" {
+		d := digest.FromString("abc")
+		sep := "?"
+		if strings.Contains(loc1, "?") {
+			sep = "&"
+		}
+		do("PUT", loc1+sep+"digest="+d.String(), []byte("abc"), map[string]string{"Content-Type": "application/octet-stream"})
+	} else {
+		do("DELETE", loc1, nil, nil)
+	}
+	r2 := do("POST", "/v2/r1/blobs/uploads/", nil, nil)
+	loc2 := r2.Header().Get("Location")
+	if r2.Code != 202 || loc2 == "" {
+		return
+	}
+	p := do("PATCH", loc2, []byte("partial"), map[string]string{"Content-Type": "application/octet-stream", "Content-Range": "0-6"})
+	if p.Code != 202 {
+		return
+	}
+	if l := p.Header().Get("Location"); l != "" {
+		loc2 = l
+	}
+	alive := func() bool { return do("GET", loc2, nil, nil).Code == 204 }
+	gone := false
+	for _, k := range []int{4, 40} {
+		time.Sleep(time.Duration(k) * grace)
+		if !alive() {
+			gone = true
+			break
+		}
+	}
+	if !gone {
+		h.mon.flag(h, "C08.gone-after.expiry", fmt.Sprintf("real timer (%s store, first session %s): an abandoned session still answers its status query %v after it was last used (grace %v)", storeKind, how, 40*grace, grace))
+		return
+	}
+	if root != "" {
+		if es, _ := os.ReadDir(filepath.Join(root, "r1", "_uploads")); len(es) > 0 {
+			h.mon.flag(h, "C08.temp-left", fmt.Sprintf("real timer: %d temporary file(s) left after the session expired", len(es)))
+		}
+	}
 }
 
 // snap is a canonical listing of the store directory: path kind size content
